@@ -35,4 +35,75 @@ theorem substring_to_end (s : FS) (hs : s.wf) (a : Nat) (ha : a ≤ s.buf.length
 example : (fromString ['a', 'é', '😀', 'b']).wf ∧ (fromString ['a', 'é', '😀', 'b']).substring 1 (some 3)
     = .ok ⟨['é', '😀'], [0, 2]⟩ := ⟨(inv_fromString _).2.1, by decide⟩
 
+/-- concatenation (`push`, `+`) keeps the invariant and concatenates the code points, whichever of the two
+representations the operands have -/
+theorem push_chars (s o : FS) (hs : s.wf) (ho : o.wf) : (s.push o).wf ∧ (s.push o).buf = s.buf ++ o.buf :=
+  push_spec s o hs ho
+
+/-- `push_ascii` with an ASCII argument -/
+theorem pushAscii_chars (s : FS) (t : List Char) (hs : s.wf) (ht : ∀ c ∈ t, c.utf8Size = 1) :
+    (s.pushAscii t).wf ∧ (s.pushAscii t).buf = s.buf ++ t := pushAscii_spec s t hs ht
+
+/-- every operation that builds a string keeps the invariant (`substring` for in-range requests, `push`,
+`from_string`, and the case mappings, which rebuild the table from the mapped text) -/
+theorem inv_preserved (s o : FS) (hs : s.wf) (ho : o.wf) (a : Nat) (e : Option Nat) (r : FS)
+    (allCased : Bool) (mapped : List Char) :
+    (s.push o).wf ∧ (s.substring a e = .ok r → a ≤ s.buf.length → (∀ b, e = some b → a ≤ b) → r.wf) ∧
+    (s.caseMap allCased mapped = some r → r.wf ∧ r.buf = mapped) := by
+  refine ⟨(push_spec s o hs ho).1, ?_, ?_⟩
+  · intro h ha hae
+    obtain ⟨r', h1, h2, _⟩ := substring_spec s hs a e ha hae
+    rw [h1] at h; cases h; exact h2
+  · intro h
+    unfold FS.caseMap at h
+    split at h
+    · cases h
+    · cases h; exact ⟨(fromString_spec mapped).2.1, (fromString_spec mapped).1⟩
+
+/-- `s[i]`: every index in `-len ≤ i < len` (negative ones count from the end) yields exactly that code point -/
+theorem get_spec (s : FS) (hs : s.wf) (i : Int) (hlen : s.buf.length < usizeLimit)
+    (hlo : -(s.buf.length : Int) ≤ i) (hhi : i < s.buf.length) :
+    ∃ r, get s i = .ok r ∧ r.wf ∧
+      r.buf = (s.buf.drop (if i < 0 then i + s.buf.length else i).toNat).take 1 :=
+  FStr.get_spec s hs i hlen hlo hhi
+
+/-- an index outside `-len ≤ i < len` is an error value -/
+theorem get_out_of_range (s : FS) (hs : s.wf) (i : Int)
+    (h : i < -(s.buf.length : Int) ∨ (s.buf.length : Int) ≤ i) : ∃ m, get s i = .err m :=
+  FStr.get_out_of_range s hs i h
+
+/-- `find(s, n, start)`: the least character index `≥ start` at which `n` occurs in the code-point sequence,
+`none` if there is none (`occAt n cs i` : `n` is a prefix of `cs.drop i`) -/
+theorem find_spec (s n : FS) (hs : s.wf) (hn : n.buf ≠ []) (st : Nat) (hst : st ≤ s.buf.length)
+    (h64 : st < usizeLimit) :
+    (∃ i, find s n (some st) = .ok (some i) ∧ st ≤ i ∧ occAt n.buf s.buf i ∧
+        ∀ j, st ≤ j → j < i → ¬ occAt n.buf s.buf j) ∨
+    (find s n (some st) = .ok none ∧ ∀ j, st ≤ j → j ≤ s.buf.length → ¬ occAt n.buf s.buf j) :=
+  FStr.find_spec s n hs hn st hst h64
+
+/-- `rfind(s, n, end)`: the greatest character index at which `n` occurs inside the first `end` code points -/
+theorem rfind_spec (s n : FS) (hs : s.wf) (hn : n.buf ≠ []) (e : Nat) (h64 : e < usizeLimit) :
+    (∃ i, rfind s n (some e) = .ok (some i) ∧ occAt n.buf (s.buf.take e) i ∧
+        ∀ j, i < j → j ≤ (s.buf.take e).length → ¬ occAt n.buf (s.buf.take e) j) ∨
+    (rfind s n (some e) = .ok none ∧ ∀ j, j ≤ (s.buf.take e).length → ¬ occAt n.buf (s.buf.take e) j) :=
+  FStr.rfind_spec s n hs hn e h64
+
+/-- whatever the integer arguments, the index handling of `get`, `find`, `rfind` and `substring` never reaches
+a Rust panic (no byte slice past the end or inside a character, no table index out of range): a request is
+answered by a value or by an error value -/
+theorem out_of_range_is_error (s n : FS) (hs : s.wf) (i j : Int) (oi : Option Int) :
+    ¬ (get s i).isPanic ∧ ¬ (find s n oi).isPanic ∧ ¬ (rfind s n oi).isPanic ∧
+    ¬ (FStr.substring s i j).isPanic :=
+  ⟨get_no_panic s hs i, find_no_panic s n hs oi, rfind_no_panic s n hs oi, substring_no_panic s hs i j⟩
+
+-- witnesses of the defects that were repaired in /repo (the old code kept the table when lower-casing):
+-- the stale table of "aİb" is not the table of its lower-casing "ai̇b"
+example : ¬ (FS.mk ['a', 'i', '\u0307', 'b'] (fromString ['a', 'İ', 'b']).starts).wf := by
+  intro h
+  rcases h with ⟨h1, _⟩ | h
+  · revert h1; decide
+  · revert h; decide
+example : get (fromString ['a', 'b', 'c']) 5 = .err "index out of bounds" := by decide
+example : find (fromString ['é', 'a']) (fromString ['a']) none = .ok (some 1) := by decide
+
 end XrayModel.C18
